@@ -14,13 +14,14 @@
    constrained only by decidable shape conditions stated in Spec.v.
 
    Outside the model (the property is PARTIAL by design): NAT table,
-   BPF-mode raw chains, kube-proxy IPVS support (KubeIPVSSupportEnabled = false), nftables flow offload.
+   BPF-mode raw chains, nftables flow offload.
 
    Matches that are not a function of the packet record are `MOther k` with k = 2*id + (1 if negated):
      id 0 limit   1 addrtype --dst-type LOCAL   2 addrtype --src-type LOCAL   3 conntrack --ctstate DNAT
      id 4 rpfilter --invert --validmark (RPF check FAILED)   5 ipvs   6 addrtype --src-type LOCAL --limit-iface-out *)
 From Coq Require Import List NArith Bool String.
 From Verif.Common Require Import Packet Ipt.
+From Verif.C08 Require Model.
 Import ListNotations.
 Open Scope N_scope.
 
@@ -62,7 +63,10 @@ Record cfg := {
   c_ep_to_host : target;                                (* DefaultEndpointToHostAction as an action *)
   c_filter_allow : target; c_mangle_allow : target;     (* ACCEPT or RETURN *)
   c_deny : target;                                      (* DROP or REJECT *)
-  c_istio : bool                                        (* IstioAmbientModeEnabled (mangle POSTROUTING DSCP rules) *)
+  c_istio : bool;                                       (* IstioAmbientModeEnabled (mangle POSTROUTING DSCP rules) *)
+  c_ipvs : bool;                                        (* KubeIPVSSupportEnabled *)
+  c_endpoint : N; c_noncali : N;                        (* MarkEndpoint (mask), MarkNonCaliEndpoint *)
+  c_nodeports : list port_range                         (* KubeNodePortRanges *)
 }.
 
 Definition all_bits (c : cfg) : N := N.lor (N.lor (N.lor (c_accept c) (c_pass c)) (c_scr0 c)) (c_scr1 c).
@@ -94,6 +98,10 @@ Definition CH_TO_HEP_FWD := "cali-to-hep-forward"%string.
 Definition CH_CIDR_BLOCK := "cali-cidr-block"%string.
 Definition CH_RPF_SKIP := "cali-rpf-skip"%string.
 Definition CH_WG_MARK := "cali-wireguard-incoming-mark"%string.
+Definition CH_FWD_CHECK := "cali-forward-check"%string.
+Definition CH_FWD_EP_MARK := "cali-forward-endpoint-mark"%string.
+Definition CH_SET_EP_MARK := "cali-set-endpoint-mark"%string.
+Definition CH_FROM_EP_MARK := "cali-from-endpoint-mark"%string.
 
 (* ------------------------------------------------------------------ failsafe chains *)
 Inductive table := TRaw | TMangle | TFilter.
@@ -151,8 +159,28 @@ Definition input_hep_rules (c : cfg) : list irule :=
     R [] (AJump CH_FROM_HEP);
     R [m_bit_set (c_accept c)] (c_filter_allow c) ].
 
+(* kube-proxy IPVS mode: forwarded (service) traffic also traverses INPUT; it is marked with a per-endpoint mark and
+   RETURNed (its policy is applied from OUTPUT, cali-forward-endpoint-mark) *)
+Definition input_ipvs_rules (c : cfg) : list irule :=
+  opt_rules (c_ipvs c)
+    [ R [] (AClearMark (c_endpoint c)); R [] (AJump CH_FWD_CHECK); R [MMark true 0 (c_endpoint c)] AReturn ].
+
 Definition filter_input (c : cfg) : list irule :=
-  (input_tunnel_rules c ++ input_wg_rules c) ++ input_wl_rules c ++ input_hep_rules c.
+  (input_tunnel_rules c ++ input_wg_rules c) ++ input_ipvs_rules c ++ input_wl_rules c ++ input_hep_rules c.
+
+(* StaticFilterInputForwardCheckChain *)
+Definition forward_check (c : cfg) : list irule :=
+  [ R [MCtState false [CtRelated; CtEstablished]] AReturn ]
+  ++ flat_map (fun sp => [ R [MProto false 6; MDstPorts false sp; MDstIpSet false SET_THIS_HOST] (AGoto CH_SET_EP_MARK);
+                           R [MProto false 17; MDstPorts false sp; MDstIpSet false SET_THIS_HOST] (AGoto CH_SET_EP_MARK) ])
+       (C08.Model.split_ports (c_nodeports c))
+  ++ [ R [MDstIpSet true SET_THIS_HOST] (AJump CH_SET_EP_MARK) ].
+
+(* StaticFilterOutputForwardEndpointMarkChain *)
+Definition forward_endpoint_mark (c : cfg) : list irule :=
+  [ R [MMark true (c_noncali c) (c_endpoint c)] (AJump CH_FROM_EP_MARK) ]
+  ++ map (fun pfx => R [MOutIface false pfx true] (AJump CH_TO_WL)) (c_prefixes c)
+  ++ [ R [] (AJump CH_TO_HEP_FWD); R [] (AClearMark (c_endpoint c)); R [m_bit_set (c_accept c)] (c_filter_allow c) ].
 
 (* ------------------------------------------------------------------ filter cali-wl-to-host *)
 Definition icmpv6_nd_types : list N := [130; 131; 132; 133; 135; 136].
@@ -198,6 +226,7 @@ Definition output_tunnel_rules (c : cfg) : list irule :=
 
 Definition filter_output (c : cfg) : list irule :=
   [ R [m_bit_set (c_accept c)] (c_filter_allow c) ]
+  ++ opt_rules (c_ipvs c) [ R [MMark true 0 (c_endpoint c)] (AGoto CH_FWD_EP_MARK) ]
   ++ map (fun pfx => R [MOutIface false pfx true] AReturn) (c_prefixes c)
   ++ output_tunnel_rules c
   ++ [ R [] (AClearMark (all_bits c));
@@ -255,8 +284,9 @@ Definition mangle_postrouting (c : cfg) : list irule :=
     (map (fun pfx => R [MProto false 6; MCtState false [CtNew]; MOutIface false pfx true;
                         MDstIpSet false SET_ISTIO; MSrcIpSet false SET_ISTIO] ANone) (c_prefixes c))
   ++ [ R [MSrcIpSet false SET_DSCP; MDstIpSet true SET_POOLS; MDstIpSet true SET_THIS_HOST] (AJump CH_EGRESS_DSCP);
-       R [m_bit_set (c_accept c)] AReturn;
-       R [] (AClearMark (all_bits c));
+       R [m_bit_set (c_accept c)] AReturn ]
+  ++ opt_rules (c_ipvs c) [ R [MMark true 0 (c_endpoint c)] AReturn ]
+  ++ [ R [] (AClearMark (all_bits c));
        R [MOth false O_CT_DNAT] (AJump CH_TO_HEP);
        R [m_bit_set (c_accept c)] AReturn ].
 
@@ -269,7 +299,8 @@ Definition static_mangle (c : cfg) : chains :=
     ("cali-POSTROUTING"%string, mangle_postrouting c) ].
 Definition static_filter (c : cfg) : chains :=
   [ (CH_FORWARD, filter_forward c); (CH_INPUT, filter_input c); (CH_WL_TO_HOST, wl_to_host c);
-    (CH_FS_IN, failsafe_in TFilter c); (CH_OUTPUT, filter_output c); (CH_FS_OUT, failsafe_out TFilter c) ].
+    (CH_FS_IN, failsafe_in TFilter c); (CH_OUTPUT, filter_output c); (CH_FS_OUT, failsafe_out TFilter c) ]
+  ++ (if c_ipvs c then [ (CH_FWD_CHECK, forward_check c); (CH_FWD_EP_MARK, forward_endpoint_mark c) ] else []).
 
 (* ------------------------------------------------------------------ hook wiring (int_dataplane.go setUpIptablesNormal) *)
 (* (table, kernel chain, appended?, rules): what Felix puts into the kernel's own chains, in call order.
